@@ -439,3 +439,218 @@ Proof.
       * intros [|i] Hi; cbn in Hi; [discriminate|].
         apply nth_error_In in Hi. apply repeat_spec in Hi. discriminate.
 Qed.
+
+Lemma sr_only_trans : forall a b c, sr_only a b -> sr_only b c -> sr_only a c.
+Proof. intros a b c [z1 H1] [z2 H2]. exists z2. subst. reflexivity. Qed.
+
+(* any interleaving of interrupted runs never installs anything but the blob *)
+Lemma recv_restarts_safe : forall b ch ks s, 1 <= ch ->
+  let r := recv_run (restarts b ch ks) s in
+  (stored (sr (nd (fst r))) = stored (sr (nd s)) \/ stored (sr (nd (fst r))) = Some b) /\
+  sr_only s (fst r) /\
+  (forall i, nth_error (snd r) i = Some true -> stored (sr (nd (fst r))) = Some b).
+Proof.
+  intros b ch ks. induction ks as [|k ks IH]; intros s Hch; cbv zeta.
+  - cbn. repeat split; auto. apply sr_only_refl. intros [|i]; discriminate.
+  - unfold restarts. cbn [map concat]. rewrite recv_run_app.
+    pose proof (prefix_run_safe b ch k s Hch) as Hp. cbv zeta in Hp.
+    destruct (recv_run (firstn k (transfer b ch)) s) as [sa da]. cbn [fst snd] in Hp.
+    specialize (IH sa Hch). cbv zeta in IH. fold (restarts b ch ks).
+    destruct (recv_run (restarts b ch ks) sa) as [sb db]. cbn [fst snd] in *.
+    destruct Hp as (P1 & P2 & P3). destruct IH as (I1 & I2 & I3).
+    repeat split.
+    + destruct I1 as [I1|I1]; [rewrite I1; auto|auto].
+    + eapply sr_only_trans; eauto.
+    + intros i Hi. destruct (Nat.lt_ge_cases i (length da)) as [Hlt|Hge].
+      * rewrite nth_error_app1 in Hi by auto. specialize (P3 i Hi).
+        destruct I1 as [I1|I1]; congruence.
+      * rewrite nth_error_app2 in Hi by auto. eauto.
+Qed.
+
+(* C09_chunk_reassembly, restarts: interrupted runs followed by one complete run *)
+Lemma recv_restarts_then_complete : forall b ch ks s, 1 <= ch ->
+  let r := recv_run (restarts b ch ks ++ transfer b ch) s in
+  stored (sr (nd (fst r))) = Some b /\ incoming (sr (nd (fst r))) = None /\
+  last (snd r) false = true.
+Proof. intros. apply recv_after_anything. auto. Qed.
+
+(* without a piece flagged first nothing is ever completed *)
+Definition not_first (p : snap_part) : Prop := match p with SData _ _ _ true _ => False | _ => True end.
+
+Lemma recv_no_first : forall ps s, incoming (sr (nd s)) = None -> Forall not_first ps ->
+  recv_run ps s = (s, repeat false (length ps)).
+Proof.
+  induction ps as [|p ps IH]; intros s Hi Hf; [reflexivity|].
+  inversion Hf as [|? ? Hp Hf']; subst.
+  cbn [recv_run]. destruct p as [|b o l [|] la]; cbn in Hp; try contradiction.
+  - cbn [set_transmission]. rewrite (IH s Hi Hf'). reflexivity.
+  - cbn [set_transmission]. rewrite Hi. rewrite (IH s Hi Hf'). reflexivity.
+Qed.
+
+(* whatever set_transmission stores is assemble_snap of the received pieces *)
+Lemma set_transmission_stores : forall p s,
+  snd (set_transmission p s) = true ->
+  exists ps, stored (sr (nd (fst (set_transmission p s)))) = Some (assemble_snap ps) /\
+             incoming (sr (nd (fst (set_transmission p s)))) = None.
+Proof.
+  intros p s. unfold set_transmission. destruct p as [|b o l f la]; cbn; [discriminate|].
+  destruct (if f then Some [] else incoming (sr (nd s))) as [acc|]; cbn; [|discriminate].
+  destruct la; cbn; [|discriminate]. intros _. eexists; split; reflexivity.
+Qed.
+
+(* C09_no_wrong_snapshot: assemble_snap says Good s only for a contiguous cover of
+   [0, s_len s) whose first piece is a piece of s and whose other pieces are pieces of
+   snapshots that snap_eqb cannot tell from s *)
+Fixpoint cover_mod (s : snapshot) (off : N) (ps : list piece) : Prop :=
+  match ps with
+  | [] => off = s_len s
+  | (b', o, l) :: r => (exists s', b' = Good s' /\ snap_eqb s s' = true) /\ o = off /\ cover_mod s (off + l) r
+  end.
+
+Lemma contig_cover_mod : forall s ps off, pieces_contig s off ps = true -> cover_mod s off ps.
+Proof.
+  induction ps as [|[[b o] l] r IH]; intros off H; cbn in *.
+  - lia.
+  - destruct b as [s'|]; [|discriminate].
+    apply andb_true_iff in H. destruct H as [H H3]. apply andb_true_iff in H. destruct H as [H1 H2].
+    repeat split; eauto. lia.
+Qed.
+
+Lemma cover_mod_total : forall s ps off, cover_mod s off ps -> off + pieces_total ps = s_len s.
+Proof.
+  induction ps as [|[[b o] l] r IH]; intros off H; cbn in *; [lia|].
+  destruct H as (_ & _ & H). specialize (IH _ H). lia.
+Qed.
+
+Lemma no_wrong_snapshot : forall ps s, assemble_snap ps = Good s ->
+  (exists o l r, ps = (Good s, o, l) :: r) /\ cover_mod s 0 ps /\ pieces_total ps = s_len s.
+Proof.
+  intros ps s H. unfold assemble_snap in H.
+  destruct ps as [|[[b o] l] r]; [discriminate|]. destruct b as [s0|]; [|discriminate].
+  revert H. match goal with |- context [if ?c then _ else _] => destruct c eqn:E end; [|intros H; discriminate H].
+  intros H. inversion H; subst s0. split; [eauto|].
+  pose proof (contig_cover_mod _ _ _ E) as Hc. split; auto.
+  pose proof (cover_mod_total _ _ _ Hc). lia.
+Qed.
+
+(* modelling remark: snap_eqb compares the two entries, the blob length and the LENGTH of the
+   history only, so pieces of two different snapshots taken at the same position, with the
+   same byte length and equally long histories are not told apart by the model *)
+Example snap_eqb_weak :
+  let e0 := mkEntry (noop_cmd 5) 3 1 in let e1 := mkEntry (noop_cmd 5) 4 1 in
+  let a := mkSnap [1] 0 e1 e0 [1; 2] 3 in
+  let b := mkSnap [2] 0 e1 e0 [1; 2] 3 in
+  a <> b /\ assemble_snap [(Good a, 0, 2); (Good b, 2, 1); (Good a, 3, 0)] = Good a.
+Proof. cbv zeta. split; [intros H; inversion H | reflexivity]. Qed.
+
+(* ================= cancel on disconnect ================= *)
+Lemma on_disconnected_trans : forall x n,
+  trans (sr (on_disconnected x n)) = adel x (trans (sr n)) /\
+  pid (sr (on_disconnected x n)) = pid (sr n) /\ stored (sr (on_disconnected x n)) = stored (sr n).
+Proof. intros. unfold on_disconnected. destruct (RO_BASE <=? x); cbn; auto. Qed.
+
+(* C09_cancel_on_disconnect (the D19 repair): after on_disconnected x the next piece for x is
+   the first piece, offset 0 *)
+Lemma cancel_on_disconnect : forall e x n s b,
+  asorted (trans (sr n)) -> nd s = on_disconnected x n ->
+  pid (sr n) = 0 -> stored (sr n) = Some b ->
+  aget x (trans (sr (nd s))) = None /\
+  snd (get_transmission e x s) =
+    SData b 0 (N.min (chunk (cf e)) (blob_len b)) true (N.min (chunk (cf e)) (blob_len b) =? 0).
+Proof.
+  intros e x n s b Hs Hn Hp Hst.
+  destruct (on_disconnected_trans x n) as (H1 & H2 & H3).
+  assert (Hx : aget x (trans (sr (nd s))) = None).
+  { rewrite Hn, H1. apply aget_adel_same; auto. }
+  split; auto.
+  assert (Hc : cursor s x = Some (b, 0)).
+  { unfold cursor. rewrite Hx, Hn, H3, Hst. reflexivity. }
+  rewrite (get_transmission_step e x s b 0); auto; [|rewrite Hn, H2; auto].
+  cbn [snd]. rewrite N.sub_0_r. reflexivity.
+Qed.
+
+Lemma cancel_transmission_trans : forall x s, asorted (trans (sr (nd s))) ->
+  aget x (trans (sr (nd (cancel_transmission x s)))) = None.
+Proof. intros. unfold cancel_transmission, upd. cbn. apply aget_adel_same; auto. Qed.
+
+(* a finished serialization (ok or failed) clears every cursor *)
+Lemma try_compact_clears_trans : forall e s, pid (sr (nd s)) <> 0 ->
+  trans (sr (nd (try_compact e s))) = [] /\ pid (sr (nd (try_compact e s))) = 0.
+Proof.
+  intros e s H. unfold try_compact. destruct (pid (sr (nd s)) =? 0) eqn:E; [lia|]. cbn [negb].
+  destruct (pid (sr (nd s)) =? 1); unfold upd; cbn; auto.
+Qed.
+
+(* the cursors stay sorted by destination (needed for the adel facts above) *)
+Lemma get_transmission_sorted : forall e x s, asorted (trans (sr (nd s))) ->
+  asorted (trans (sr (nd (fst (get_transmission e x s))))).
+Proof.
+  intros e x s H. unfold get_transmission. destruct (negb _); auto.
+  destruct (match aget x (trans (sr (nd s))) with Some t => Some t | None => _ end) as [[b off]|]; auto.
+  cbn. destruct (_ =? 0); [apply asorted_adel | apply asorted_aset]; auto.
+Qed.
+
+Lemma on_disconnected_sorted : forall x n, asorted (trans (sr n)) -> asorted (trans (sr (on_disconnected x n))).
+Proof. intros x n H. destruct (on_disconnected_trans x n) as (H1 & _). rewrite H1. apply asorted_adel; auto. Qed.
+
+(* ================= catch-up index after the last piece ================= *)
+Lemma get_transmission_log : forall e x s,
+  log (nd (fst (get_transmission e x s))) = log (nd s) /\ exc (fst (get_transmission e x s)) = exc s /\
+  next_idx (nd (fst (get_transmission e x s))) = next_idx (nd s).
+Proof.
+  intros e x s. unfold get_transmission. destruct (negb _); auto.
+  destruct (match aget x (trans (sr (nd s))) with Some t => Some t | None => _ end) as [[b off]|]; auto.
+Qed.
+
+(* C09_catch_up_index: in the snapshot branch of the send loop, with a log of at least two
+   entries, no IndexError; after the piece flagged last next_idx[x] = index of log[1] + 1 *)
+Lemma catch_up_index : forall e x next s a b rest,
+  next <= first_idx (log (nd s)) -> log (nd s) = a :: b :: rest ->
+  let r := fst (ae_body e x next s) in
+  exc r = exc s /\ log (nd r) = log (nd s) /\
+  (forall bl off len fst_, snd (get_transmission e x s) = SData bl off len fst_ true ->
+     aget x (next_idx (nd r)) = Some (eidx b + 1)) /\
+  (forall bl off len fst_, snd (get_transmission e x s) = SData bl off len fst_ false ->
+     next_idx (nd r) = next_idx (nd s) /\ snd (ae_body e x next s) = true) /\
+  (snd (get_transmission e x s) = SNone -> next_idx (nd r) = next_idx (nd s)).
+Proof.
+  intros e x next s a b rest Hn Hl. cbv zeta. unfold ae_body.
+  destruct (first_idx (log (nd s)) <? next) eqn:E; [lia|].
+  destruct (get_transmission_log e x s) as (G1 & G2 & G3).
+  destruct (get_transmission e x s) as [s1 td]. cbn [fst snd] in *.
+  match goal with |- context [send x ?m s1] => set (M := m) end.
+  destruct (send_frame x M s1) as (S1 & S2 & S3).
+  destruct td as [|bl off len f la].
+  - cbn [fst snd]. rewrite S1, S2. repeat split; try congruence; intros; discriminate.
+  - destruct la.
+    + rewrite S1, G1, Hl. cbn [fst snd]. unfold upd. cbn. rewrite S1, S2, G1.
+      repeat split; try congruence.
+      * intros. apply aget_aset_same.
+      * intros; discriminate.
+      * intros; discriminate.
+    + cbn [fst snd]. rewrite S1, S2. repeat split; try congruence; intros; discriminate.
+Qed.
+
+Lemma catch_up_index_wf : forall l a b rest, l = a :: b :: rest -> log_wf l -> eidx b + 1 = first_idx l + 2.
+Proof. intros l a b rest -> H. unfold log_wf in H. cbn in H. lia. Qed.
+
+(* C05_snapshot_transfer_completes: an uninterrupted transfer, sender to receiver, installs the
+   sender's blob after ceil(len/chunk) + 1 pieces *)
+Lemma snapshot_transfer_completes : forall e x sl sf b,
+  1 <= chunk (cf e) -> pid (sr (nd sl)) = 0 -> asorted (trans (sr (nd sl))) ->
+  stored (sr (nd sl)) = Some b -> aget x (trans (sr (nd sl))) = None ->
+  let n := N.to_nat (nchunks (blob_len b) (chunk (cf e))) in
+  let pieces := snd (sender_run (Datatypes.S n) e x sl) in
+  let r := recv_run pieces sf in
+  length pieces = Datatypes.S n /\
+  stored (sr (nd (fst r))) = Some b /\ incoming (sr (nd (fst r))) = None /\
+  snd r = repeat false n ++ [true] /\
+  aget x (trans (sr (nd (fst (sender_run (Datatypes.S n) e x sl))))) = None.
+Proof.
+  intros e x sl sf b Hch Hp Hs Hst Hx. cbv zeta.
+  destruct (sender_transfer e x sl b Hch Hp Hs Hst Hx (Datatypes.S (N.to_nat (nchunks (blob_len b) (chunk (cf e)))))
+              ltac:(lia)) as [H1 H2].
+  rewrite H1. rewrite transfer_length. rewrite recv_transfer by auto. cbn [fst snd].
+  unfold set_sr, upd; cbn. repeat split; auto.
+  destruct H2 as (tr & E1 & E2 & _). rewrite E1. exact E2.
+Qed.
